@@ -447,3 +447,41 @@ pub fn rebuild_daily(d: &RoomDump, room: &Uid) -> R<Vec<DailyRow>> {
     e2s(upd.compute(&conn))?;
     dump_daily(&conn, room)
 }
+
+/// every synchronised or derived table of the whole database, as sorted text lines (for "nothing changed" checks)
+pub fn dump_all(conn: &Connection) -> R<Vec<String>> {
+    let mut v = vec![];
+    {
+        let mut st = e2s(conn.prepare("SELECT id, room_id, cdate, mdate, _entity, _json, _binary, verifying_key, _signature FROM _node"))?;
+        let mut rows = e2s(st.query([]))?;
+        while let Some(r) = e2s(rows.next())? {
+            let id: Vec<u8> = e2s(r.get(0))?;
+            let room: Option<Vec<u8>> = e2s(r.get(1))?;
+            let c: i64 = e2s(r.get(2))?;
+            let m: i64 = e2s(r.get(3))?;
+            let e: String = e2s(r.get(4))?;
+            let j: Option<String> = e2s(r.get(5))?;
+            let b: Option<Vec<u8>> = e2s(r.get(6))?;
+            let a: Vec<u8> = e2s(r.get(7))?;
+            let s: Vec<u8> = e2s(r.get(8))?;
+            v.push(format!("N {} {} {c} {m} {e} {} {} {} {}", hex(&id), room.map(|x| hex(&x)).unwrap_or("-".into()), j.unwrap_or("-".into()), b.map(|x| hex(&x)).unwrap_or("-".into()), &hex(&a)[..12], &hex(&s)[..16]));
+        }
+    }
+    for (tag, q, n) in [
+        ("E", "SELECT hex(src)||' '||src_entity||' '||label||' '||hex(dest)||' '||cdate||' '||substr(hex(signature),1,16) FROM _edge", 1),
+        ("ND", "SELECT hex(room_id)||' '||hex(id)||' '||mdate||' '||entity||' '||deletion_date||' '||substr(hex(signature),1,16) FROM _node_deletion_log", 1),
+        ("ED", "SELECT hex(room_id)||' '||hex(src)||' '||label||' '||hex(dest)||' '||cdate||' '||deletion_date||' '||substr(hex(signature),1,16) FROM _edge_deletion_log", 1),
+        ("DL", "SELECT hex(room_id)||' '||entity||' '||date||' '||entry_number||' '||ifnull(hex(daily_hash),'-')||' '||ifnull(hex(history_hash),'-')||' '||ifnull(need_recompute,-1) FROM _daily_log", 1),
+        ("RC", "SELECT hex(room_id)||' '||mdate FROM _room_changelog", 1),
+    ] {
+        let _ = n;
+        let mut st = e2s(conn.prepare(q))?;
+        let mut rows = e2s(st.query([]))?;
+        while let Some(r) = e2s(rows.next())? {
+            let s: String = e2s(r.get(0))?;
+            v.push(format!("{tag} {s}"));
+        }
+    }
+    v.sort();
+    Ok(v)
+}
